@@ -293,7 +293,15 @@ class History:
             self.violations.append({"signature": {"engine": "hist_cache", "oracle": "update_raises", "class": type(e).__name__, "accessor": where, "via": self.last_update_kind},
                                     "message": "update %s raised %s: %s" % (self.last_update, type(e).__name__, str(e)[:200])})
             return False
-        self.log.add("update", kind, op.get("id"), sorted((k, tensor_digest(v)) for k, v in self.base_values().items()))
+        vals_after = self.base_values()
+        self.log.add("update", kind, op.get("id"), sorted((k, tensor_digest(v)) for k, v in vals_after.items()))
+        import torch
+
+        if any(v.dtype.is_floating_point and not bool(torch.isfinite(v).all()) for v in vals_after.values()):
+            # the update pushed a parameter out of every domain (NaN / inf, e.g. a draw that the
+            # inverse transform cannot represent): the property quantifies over valid values only
+            self.stats["left_domain"] = self.stats.get("left_domain", 0) + 1
+            return False
         return True
 
     def apply_raw(self, op):
